@@ -74,6 +74,7 @@ def compare(case, impl, model, stats=None, proj=None):
     if op == "rate":
         beta = case["st"]["beta"]
         srel = _sigma_rel(case, mr)
+        sinfl = _sigma_infl(case) if srel > REL else None
         if [len(t) for t in ir] != [len(t) for t in mr]:
             out.append("shape: impl %s / model %s" % ([len(t) for t in ir], [len(t) for t in mr]))
             return out
@@ -85,7 +86,8 @@ def compare(case, impl, model, stats=None, proj=None):
                 if want("mu") and not close(pi[0], pm[0], sc, stats) and not (
                         abs(fh(pi[0]) - fh(pm[0])) <= _tm_tie_mu_allow(case, i, j) + REL * max(sc, abs(fh(pi[0])))):
                     out.append("mu at [%d][%d]: impl %s / model %s" % (i, j, fh(pi[0]), fh(pm[0])))
-                if want("sigma") and not close(pi[1], pm[1], 0.0, stats, rel=srel):
+                if want("sigma") and not close(pi[1], pm[1], 0.0, stats, rel=(
+                        srel if srel <= REL or sinfl is None else tm_sigma_tol(srel, case["st"]["kappa"], sinfl[i][j], fh(pi[1]), fh(pm[1])))):
                     out.append("sigma at [%d][%d]: impl %s / model %s" % (i, j, fh(pi[1]), fh(pm[1])))
         if proj is not None and "slots" in proj:
             # C02 "no player is moved to another team or slot", on the VALUES: a result slot whose (mu, sigma) is not the
@@ -192,6 +194,31 @@ def _nm(n):
 def _canon_state(st):
     from .impl import hx
     return [hx(fh(x)) if isinstance(x, str) else x for x in st]
+
+
+def tm_sigma_tol(noise, kappa, sg_infl, a, b):
+    """relative tolerance on a posterior sigma of a Thurstone-Mosteller game with ties.  sigma' = sigma_infl * sqrt(max(f,
+    kappa)) with f = 1 - share * delta; the tie terms of delta carry W~'s cancellation noise [noise] (relative, W~ ~ 1), so
+    two correct evaluations differ in f by at most about noise * share * delta <= noise, i.e. in sigma' by noise / (2 f)
+    relative for each side: noise / f together.  f is read off the two posteriors themselves; it is small exactly when
+    the variance factor comes close to its floor kappa (large gamma, dominant player), and there the noise is amplified
+    by 1/f.  (seed 507: gamma = 3.7, f = 5e-5, noise 1.5e-6: the two sigmas differ by 6e-5 relative.)"""
+    if noise <= REL:
+        return REL
+    try:
+        f = (min(abs(a), abs(b)) / sg_infl) ** 2 if sg_infl > 0 else 1.0
+    except (ZeroDivisionError, OverflowError):
+        f = 1.0
+    return max(REL, noise / max(f - noise, kappa, 1e-300))
+
+
+def _sigma_infl(case):
+    args = case["args"]
+    try:
+        tau = case["st"]["tau"] if args[3][0] == "N" else float(args[3][1])
+        return [[math.sqrt(float(p[3]) ** 2 + tau * tau) for p in t[1]] for t in args[0][1]]
+    except Exception:  # noqa: BLE001
+        return None
 
 
 def _sigma_rel(case, model_res):
